@@ -3,6 +3,7 @@ package props
 import (
 	"encoding/json"
 	"fmt"
+	"strings"
 
 	"github.com/xjslang/xjs/debug"
 	"github.com/xjslang/xjs/lexer"
@@ -188,6 +189,100 @@ func c11Run(c *core.Ctx) {
 			return true
 		})
 	}
+	// programs being typed: every token prefix and every single-token deletion of every program of the
+	// statement families and of the nesting chains (depth <= 2), in a one-line and a line-per-token layout,
+	// in all four modes
+	{
+		level := 1
+		if c.Thorough() {
+			level = 2
+		}
+		edits := func(prog []*gen.Node) {
+			toks := gen.UnparseProgram(prog, false)
+			if len(toks) > 40 {
+				return
+			}
+			texts := make([]string, len(toks))
+			for i, t := range toks {
+				texts[i] = t.Text
+			}
+			try := func(parts []string, what string) {
+				for si, sep := range []string{" ", "\n"} {
+					if si == 1 && len(parts) > 16 {
+						continue
+					}
+					src := strings.Join(parts, sep)
+					c.Cur(src)
+					c.Inc("inputs")
+					c.Inc("edited_program_inputs")
+					for mi := range Modes {
+						c.Inc("parses")
+						k, d, free := c11Check(src, mi, cfgs[:4])
+						if free {
+							c.Inc("edited_program_error_free")
+						}
+						if k != "" && c.ShrinkOK("edit"+k+Modes[mi].String()) {
+							pl, _ := json.Marshal(c11Payload{src, mi})
+							c.Violate(core.Violation{Kind: k, Config: Modes[mi].String(), Case: fmt.Sprintf("%q (%s)", src, what), Detail: core.Short(d, 600), Payload: pl, Size: len(parts)})
+						}
+					}
+				}
+			}
+			for cut := 1; cut < len(texts); cut++ {
+				try(texts[:cut], "prefix of a valid program")
+			}
+			for del := 0; del < len(texts); del++ {
+				try(append(append([]string{}, texts[:del]...), texts[del+1:]...), "valid program with one token deleted")
+			}
+			// what tolerant mode is for: statements on one line without a separator. The program with every
+			// semicolon dropped, and with each single one dropped, whole and at every prefix
+			var semis []int
+			for i, t := range texts {
+				if t == ";" {
+					semis = append(semis, i)
+				}
+			}
+			drop := func(which map[int]bool) []string {
+				var out []string
+				for i, t := range texts {
+					if !which[i] {
+						out = append(out, t)
+					}
+				}
+				return out
+			}
+			var variants [][]string
+			if len(semis) > 0 {
+				all := map[int]bool{}
+				for _, i := range semis {
+					all[i] = true
+				}
+				variants = append(variants, drop(all))
+				if len(semis) > 1 && len(semis) <= 6 {
+					for _, i := range semis {
+						variants = append(variants, drop(map[int]bool{i: true}))
+					}
+				}
+			}
+			for _, v := range variants {
+				for cut := 1; cut <= len(v); cut++ {
+					try(v[:cut], "prefix of a valid program with semicolons dropped")
+				}
+			}
+		}
+		gen.Programs(level, func(prog []*gen.Node, name string) {
+			if !c.Next() || c.Tick() {
+				return
+			}
+			edits(prog)
+		})
+		gen.NestChains(gen.Nesters(true), 2, func(prog []*gen.Node, name string) {
+			if !c.Next() || c.Tick() {
+				return
+			}
+			edits(prog)
+		})
+	}
 	// scale family, intact and truncated at a few points (deep recursion on error paths)
 	for i, sp := range gen.Scale(c.Thorough()) {
 		if !c.Mine(int64(i)) || c.Tick() {
@@ -267,7 +362,7 @@ func c11Replay(pl json.RawMessage) (string, []core.Violation) {
 func init() {
 	core.Register(&core.PropSpec{
 		ID: "C11", Level: "exploration",
-		Rule:     "ALL token sequences of length 0..n (n=4 quick, 5 thorough) over the 45-lexeme alphabet (identifiers, literals, every keyword, operator and delimiter), valid or not, space-separated (and line-feed-separated up to n-1; at n=5 in the modes strict and tolerant+smart only), plus all byte strings <=4 over the 26-byte lexer alphabet; each parsed in the 4 mode combinations; oracle: no panic, err<=>Errors(), no nil/typed-nil entry in any statement list (reflective walk), every error range equals the range of a token of a fresh lexer run, and for error-free results all mandatory children present and every compiler configuration + debug.ToString run without panic. non-trivial = input accepted without error in at least one mode (reaches tree + compiler checks) — rejected inputs are counted separately Added: all sequences <= 3 (4 thorough) over a second 20-lexeme alphabet with range-edge numeric literals and a long escape; the scale family intact and truncated at 3 points.",
+		Rule:     "ALL token sequences of length 0..n (n=4 quick, 5 thorough) over the 45-lexeme alphabet (identifiers, literals, every keyword, operator and delimiter), valid or not, space-separated (and line-feed-separated up to n-1; at n=5 in the modes strict and tolerant+smart only), plus all byte strings <=4 over the 26-byte lexer alphabet; each parsed in the 4 mode combinations; oracle: no panic, err<=>Errors(), no nil/typed-nil entry in any statement list (reflective walk), every error range equals the range of a token of a fresh lexer run, and for error-free results all mandatory children present and every compiler configuration + debug.ToString run without panic. non-trivial = input accepted without error in at least one mode (reaches tree + compiler checks) — rejected inputs are counted separately Added: all sequences <= 3 (4 thorough) over a second 20-lexeme alphabet with range-edge numeric literals and a long escape; the scale family intact and truncated at 3 points; programs being typed: every token prefix and every single-token deletion of every program of the statement families and nesting chains, and every prefix of those programs with all / each single semicolon dropped (the inputs tolerant mode exists for), in two layouts and all modes.",
 		Assume:   []string{"stack exhaustion on very deep nesting is out of scope (bounded length)"},
 		QuickSec: 300, ThorSec: 2400, Run: c11Run, Replay: c11Replay,
 		Evals: "inputs", Nontriv: "error_free_inputs",
